@@ -306,6 +306,8 @@ pub struct FaultyWriter {
     pub cap: Option<usize>,
     pub int_every: Option<usize>,
     pub flush_fail: bool,
+    /// transient failure: the call that finds the budget exhausted fails once, later calls are accepted again
+    pub once: bool,
     pub calls: usize,
 }
 
@@ -323,6 +325,9 @@ impl std::io::Write for FaultyWriter {
         }
         if let Some(b) = self.budget {
             if self.acc.len() >= b {
+                if self.once {
+                    self.budget = None;
+                }
                 return Err(std::io::Error::new(std::io::ErrorKind::Other, "device full"));
             }
             n = n.min(b - self.acc.len());
@@ -340,7 +345,7 @@ impl std::io::Write for FaultyWriter {
 }
 
 pub fn parse_wspec(spec: &str) -> FaultyWriter {
-    let mut w = FaultyWriter { acc: vec![], budget: None, cap: None, int_every: None, flush_fail: false, calls: 0 };
+    let mut w = FaultyWriter { acc: vec![], budget: None, cap: None, int_every: None, flush_fail: false, once: false, calls: 0 };
     for kv in spec.split(',') {
         if let Some((k, v)) = kv.split_once('=') {
             match k {
@@ -348,6 +353,7 @@ pub fn parse_wspec(spec: &str) -> FaultyWriter {
                 "m" => w.cap = v.parse().ok(),
                 "int" => w.int_every = v.parse().ok(),
                 "ff" => w.flush_fail = v == "1",
+                "once" => w.once = v == "1",
                 _ => {}
             }
         }
